@@ -685,9 +685,65 @@ func c17HistStep(sp *saml2.SAMLServiceProvider, op int, st *c17HistState) string
 				v[i] = 'X'
 			}
 		}
+		// and every element of every slice, every map entry and every field reachable from it
+		if st.last != nil {
+			scribbleDeep(reflect.ValueOf(st.last), 0, map[uintptr]bool{})
+		}
 		return "scribbled"
 	}
 	return ""
+}
+
+// scribbleDeep overwrites, in place, everything the holder of a result can write to: strings,
+// numbers and booleans in every exported field, every element of every slice (without
+// appending, so that a shared backing array is written through) and every map entry.
+func scribbleDeep(v reflect.Value, depth int, seen map[uintptr]bool) {
+	if depth > 14 || !v.IsValid() {
+		return
+	}
+	switch v.Kind() {
+	case reflect.Ptr:
+		if v.IsNil() || seen[v.Pointer()] {
+			return
+		}
+		seen[v.Pointer()] = true
+		scribbleDeep(v.Elem(), depth+1, seen)
+	case reflect.Interface:
+		if !v.IsNil() {
+			scribbleDeep(v.Elem(), depth+1, seen)
+		}
+	case reflect.Struct:
+		for i := 0; i < v.NumField(); i++ {
+			if v.Type().Field(i).PkgPath != "" {
+				continue // unexported
+			}
+			scribbleDeep(v.Field(i), depth+1, seen)
+		}
+	case reflect.Slice, reflect.Array:
+		for i := 0; i < v.Len(); i++ {
+			scribbleDeep(v.Index(i), depth+1, seen)
+		}
+	case reflect.Map:
+		for _, k := range v.MapKeys() {
+			v.SetMapIndex(k, reflect.Zero(v.Type().Elem()))
+		}
+	case reflect.String:
+		if v.CanSet() {
+			v.SetString("scribbled")
+		}
+	case reflect.Bool:
+		if v.CanSet() {
+			v.SetBool(!v.Bool())
+		}
+	case reflect.Int, reflect.Int8, reflect.Int16, reflect.Int32, reflect.Int64:
+		if v.CanSet() {
+			v.SetInt(-7)
+		}
+	case reflect.Uint, reflect.Uint8, reflect.Uint16, reflect.Uint32, reflect.Uint64:
+		if v.CanSet() {
+			v.SetUint(0x58)
+		}
+	}
 }
 
 var c17LROnce sync.Once
@@ -813,7 +869,26 @@ func snapshotSP(sp *saml2.SAMLServiceProvider) string {
 	return sb.String()
 }
 
+// c17Refs holds the outcome of every history operation on a fresh instance, taken before any
+// history has run in this process: a fresh instance made later shares package-level state with
+// the instance under test, so it cannot vouch for it.
+var (
+	c17RefOnce sync.Once
+	c17Refs    = map[int]string{}
+)
+
+func c17HistRefs() {
+	c17RefOnce.Do(func() {
+		for op := range c17HistOps {
+			if c17HistOps[op] != "scribble-over-previous-result" {
+				c17Refs[op] = c17HistStep(c17SP(), op, &c17HistState{})
+			}
+		}
+	})
+}
+
 func c17HistoryExec(hist []int) (keys []string, detail string) {
+	c17HistRefs()
 	sp := c17SP()
 	st := &c17HistState{}
 	before := snapshotSP(sp)
@@ -846,6 +921,9 @@ func c17HistoryExec(hist []int) (keys []string, detail string) {
 		if got != fresh {
 			keys = append(keys, "C17/history/"+c17HistOps[op]+"/outcome-differs-from-fresh-instance")
 			detail += fmt.Sprintf(" | step %d %s: outcome differs from a fresh instance", i, c17HistOps[op])
+		} else if ref := c17Refs[op]; got != ref {
+			keys = append(keys, "C17/history/"+c17HistOps[op]+"/outcome-differs-from-the-same-call-before-any-result-was-modified")
+			detail += fmt.Sprintf(" | step %d %s: outcome (also on a fresh instance) differs from the outcome at process start: %.300q vs %.300q", i, c17HistOps[op], got, ref)
 		}
 	}
 	return dedupe(keys), "history " + strings.Join(names, " ; ") + detail
@@ -884,7 +962,7 @@ func c17Run(r *mc.Run) {
 	if r.Thorough() {
 		bound = 3
 	}
-	r.Rule = "(a) E-SCHED: every interleaving with <= 2 (quick) / <= 3 (thorough) preemptions (unbounded for the first-use race) of 12 (thorough 14) scenarios of 2-3 managed goroutines x 1-2 operations out of 19 on one shared SP with a non-default algorithm and canonicaliser, on an overlay build whose scheduling points are the sync shim operations plus a yield before every statement touching a written package-level variable or written SAMLServiceProvider field; oracle: no deadlock/panic, every call returns what it returns alone on a fresh SP, SigningContext fully configured when observed. (b) E-BFS over call histories: all sequences up to depth 3 (quick) / 4 (thorough) over 11 operations incl. scribbling over the previous result; deep reflective snapshot of the configuration unchanged, outcome equal to a fresh instance, and every result handed out earlier still unchanged after every later call. (c) free-running -race pass of the same bodies (sampling; supporting). non-trivial = an execution with at least one preemption, or a history of length >= 2; distinct = distinct schedule / history"
+	r.Rule = "(a) E-SCHED: every interleaving with <= 2 (quick) / <= 3 (thorough) preemptions (unbounded for the first-use race) of 12 (thorough 14) scenarios of 2-3 managed goroutines x 1-2 operations out of 19 on one shared SP with a non-default algorithm and canonicaliser, on an overlay build whose scheduling points are the sync shim operations plus a yield before every statement touching a written package-level variable or written SAMLServiceProvider field; oracle: no deadlock/panic, every call returns what it returns alone on a fresh SP, SigningContext fully configured when observed. (b) E-BFS over call histories: all sequences up to depth 3 (quick) / 4 (thorough) over 11 operations incl. scribbling over the previous result (every field, slice element and map entry reachable from it, in place); deep reflective snapshot of the configuration unchanged, outcome equal to a fresh instance and to the outcome of the same call before any result was written to (package-level state shared by all instances), and every result handed out earlier still unchanged after every later call. (c) free-running -race pass of the same bodies (sampling; supporting). non-trivial = an execution with at least one preemption, or a history of length >= 2; distinct = distinct schedule / history"
 	r.Assume("scheduling points are sufficient only together with the race pass (c), which is sampling", "the overlay is regenerated from /repo's working tree on every run (instr report in evidence)")
 	if b, err := os.ReadFile(os.Getenv("VERIF_INSTR_REPORT")); err == nil {
 		var rep map[string]interface{}
